@@ -17,6 +17,11 @@ inductive PhaseN
   | pass
   | await (a : Nat)
 
+/-- Phases in which the station holds the token for application traffic. -/
+def PhaseN.useLike : PhaseN → Prop
+  | .hold _ | .holdT | .await _ => True
+  | _ => False
+
 /-- Predicted end of a transmission (what the sender stamps). -/
 def tEnd (cfg : Cfg) (t : Transmission) : Int := t.start + ((bitsToTime cfg.rate (11 * t.bytes.length) : Nat) : Int)
 
@@ -150,14 +155,15 @@ end, i.e. up to the 1 µs rounding): a GAP request to a non-member (turn stays),
 (turn passes on), or an application telegram from one of its scripts (turn stays). -/
 def NStepOut (cfg : Cfg) (M : List Nat) (adr : Nat → Nat) (n : Net) (v : NView) (i : Nat) (now : Int) : Prop :=
   ∃ n' v' inc c, n.poll i now = (n', inc, some (.ok c)) ∧ NInv cfg M adr n' v' ∧ v'.tl = now ∧
-    ((c.tx = none ∧ v'.tr = v.tr ∧ v'.turn M adr = v.turn M adr ∧ (v'.ph = v.ph ∨ ∃ p, v'.ph = .hold p)) ∨
+    ((c.tx = none ∧ v'.tr = v.tr ∧ v'.turn M adr = v.turn M adr ∧
+        ((v'.ph = v.ph ∧ v'.x = v.x ∧ v'.H = v.H) ∨ (v.ph = .pass ∧ v'.ph = .hold now ∧ v'.x = i ∧ i ≠ v.x))) ∨
      (∃ b, c.tx = some b ∧ adr i = v.turn M adr ∧
         (cEnd cfg v.tr + (cfg.b33 : Nat) < now ∨ (v.ph = .holdT ∧ cEnd cfg v.tr + (cfg.b33 : Nat) ≤ now)) ∧
-        v'.tr = { start := now, sender := i, bytes := b, dropped := false } ∧
-        ((∃ g, b = statusRequestBytes g (adr i) ∧ g ∉ M ∧ v'.turn M adr = adr i ∧ v'.ph = .gap g) ∨
+        v'.tr = { start := now, sender := i, bytes := b, dropped := false } ∧ (i = v.x ∧ v'.x = v.x) ∧
+        ((∃ g, b = statusRequestBytes g (adr i) ∧ g ∉ M ∧ v'.turn M adr = adr i ∧ v'.ph = .gap g ∧ v.ph.useLike) ∨
          (b = tokenBytes (cycSucc (adr i) M) (adr i) ∧ v'.turn M adr = cycSucc (adr i) M ∧ v'.ph = .pass) ∨
          (∃ h pdu, b = frameSpec h pdu ∧ AppP h pdu ∧ v'.turn M adr = adr i ∧ (v'.ph = .holdT ∨ ∃ a, v'.ph = .await a) ∧
-            ∀ st, n.stations[i]? = some st → ∀ P : Header → Bytes → Prop, AnsOk P st.apps → P h pdu))))
+            (∀ st, n.stations[i]? = some st → ∀ P : Header → Bytes → Prop, AnsOk P st.apps → P h pdu) ∧ v.ph.useLike))))
 
 theorem LogOk.seenSet {cfg : Cfg} {M : List Nat} {adr : Nat → Nat} {n : Nat} {b : Bus} (h : LogOk cfg M adr n b) (i : Nat) (now : Int) :
     LogOk cfg M adr n { b with seen := b.seen.set i now } :=
@@ -215,7 +221,7 @@ theorem stepL_stay {cfg : Cfg} {M : List Nat} {adr : Nat → Nat} {n : Net} {v :
   have hjs : j < n.bus.seen.length := by rw [h.log.seen]; exact hjl
   have htl := e.tl
   have hown := e.own
-  refine ⟨_, { v with tl := now }, inc, c, hpe, ?_, rfl, .inl ⟨htx, rfl, rfl, .inl rfl⟩⟩
+  refine ⟨_, { v with tl := now }, inc, c, hpe, ?_, rfl, .inl ⟨htx, rfl, rfl, .inl ⟨rfl, rfl, rfl⟩⟩⟩
   refine ⟨by simp only [List.length_set]; exact h.ring, by simp only [List.length_set]; exact h.xlt, ?_, h.okx,
     by simp only [List.length_set]; exact h.log.seenSet j now, h.txs, ?_, h.ownX, ?_, ?_, ?_, h.pbx, h.rxx, ?_⟩
   · simp only; rw [List.getElem?_set_ne hjx]; exact h.gx
@@ -380,7 +386,7 @@ theorem stepL_accept {cfg : Cfg} {M : List Nat} {adr : Nat → Nat} {n : Net} {v
       · exact hs
     refine ⟨_, { x := j, sx := upSt st c, pre := v.pre, tr := v.tr, ph := .hold now,
                  H := now + (cfg.b33 : Nat) + (cfg.P : Nat), Lo := now + (cfg.b33 : Nat), tl := now },
-      inc, c, hpe, ?_, rfl, .inl ⟨htx, rfl, ?_, .inr ⟨now, rfl⟩⟩⟩
+      inc, c, hpe, ?_, rfl, .inl ⟨htx, rfl, ?_, .inr ⟨hph, rfl, rfl, hjx⟩⟩⟩
     · refine ⟨by simp only [List.length_set]; exact h.ring, by simp only [List.length_set]; exact hjl,
         List.getElem?_set_self hjl, hokS, by simp only [List.length_set]; exact h.log.seenSet j now, h.txs, ?_, ?_, ?_, ?_, ?_,
         hcp, hcr, ?_⟩
@@ -484,7 +490,7 @@ theorem ninv_quiet_x {cfg : Cfg} {M : List Nat} {adr : Nat → Nat} {n : Net} {v
   rw [htx] at hpe
   have hxs : v.x < n.bus.seen.length := by rw [h.log.seen]; exact h.xlt
   have htl := e.tl
-  refine ⟨_, v.setX c now, [], c, hpe, ?_, rfl, .inl ⟨htx, rfl, rfl, .inl rfl⟩⟩
+  refine ⟨_, v.setX c now, [], c, hpe, ?_, rfl, .inl ⟨htx, rfl, rfl, .inl ⟨rfl, rfl, rfl⟩⟩⟩
   unfold NView.setX at hph ⊢
   refine ⟨by simp only [List.length_set]; exact h.ring, by simp only [List.length_set]; exact h.xlt,
     List.getElem?_set_self h.xlt, h.okx.step now _ _ c hp' h1 (by rw [h2]; exact h.okx.view) h3 h7,
@@ -854,7 +860,7 @@ theorem stepNX_token {cfg : Cfg} {M : List Nat} {adr : Nat → Nat} {n : Net} {v
       have := e.tl
       show _ < now + ((cfg.ce 2 : Nat) : Int)
       omega)
-  refine ⟨n', _, [], c, hn', hinv', rfl, .inr ⟨_, htx, hturn.symm, hsync, rfl, .inr (.inl ⟨rfl, ?_, rfl⟩)⟩⟩
+  refine ⟨n', _, [], c, hn', hinv', rfl, .inr ⟨_, htx, hturn.symm, hsync, rfl, ⟨rfl, rfl⟩, .inr (.inl ⟨rfl, ?_, rfl⟩)⟩⟩
   unfold NView.turn NView.sendX
   rfl
 
@@ -874,7 +880,7 @@ non-member, or the token to its successor. -/
 theorem stepNX_emit {cfg : Cfg} {M : List Nat} {adr : Nat → Nat} {n : Net} {v : NView} (h : NInv cfg M adr n v)
     (hok : cfg.Ok) (hP100 : cfg.P ≤ 100000) (now : Int) (e : EvOkN cfg n v.tl v.x now) (c : Ctx)
     (hp : v.sx.s.poll v.sx.apps now (n.bus.transmitting v.x now) [] = .ok c) (hinvc : Inv c.s c.apps)
-    (hout : UseOut v.sx.s v.sx.apps c now)
+    (hout : UseOut v.sx.s v.sx.apps c now) (huse : v.ph.useLike)
     (hq1 : v.Lo < now) (hends : ∀ o ∈ n.bus.txs, cEnd cfg o ≤ now)
     (hnotok : ∀ j, j < n.stations.length → j ≠ v.x → ∀ a, v.tr.bytes ≠ tokenBytes (adr j) a)
     (hturn : v.turn M adr = adr v.x)
@@ -927,7 +933,7 @@ theorem stepNX_emit {cfg : Cfg} {M : List Nat} {adr : Nat → Nat} {n : Net} {v 
           simp only
           rw [seen_set_self _ _ _ hxs]
           exact ⟨trivial, ⟨hd, pdu, rfl⟩, ⟨d', f', hst'⟩, hlast', Int.le_refl _, by omega, trivial, trivial⟩)
-      refine ⟨n', _, [], c, hn', hinv', rfl, .inr ⟨_, htx, hturn.symm, hsync, rfl, .inr (.inr ⟨hd, pdu, rfl, happP, ?_, .inl rfl, hfin⟩)⟩⟩
+      refine ⟨n', _, [], c, hn', hinv', rfl, .inr ⟨_, htx, hturn.symm, hsync, rfl, ⟨rfl, rfl⟩, .inr (.inr ⟨hd, pdu, rfl, happP, ?_, .inl rfl, hfin, huse⟩)⟩⟩
       unfold NView.turn NView.sendX
       rfl
     · obtain ⟨n', pre', hn', hinv'⟩ := ninv_send_x h hok hP100 now e c _ (.await a8.toNat)
@@ -941,8 +947,8 @@ theorem stepNX_emit {cfg : Cfg} {M : List Nat} {adr : Nat → Nat} {n : Net} {v 
           simp only
           rw [seen_set_self _ _ _ hxs]
           exact ⟨trivial, ⟨hd, pdu, rfl⟩, ⟨d', hst'⟩, hlast', Int.le_refl _, by omega, trivial, trivial⟩)
-      refine ⟨n', _, [], c, hn', hinv', rfl, .inr ⟨_, htx, hturn.symm, hsync, rfl,
-        .inr (.inr ⟨hd, pdu, rfl, happP, ?_, .inr ⟨_, rfl⟩, hfin⟩)⟩⟩
+      refine ⟨n', _, [], c, hn', hinv', rfl, .inr ⟨_, htx, hturn.symm, hsync, rfl, ⟨rfl, rfl⟩,
+        .inr (.inr ⟨hd, pdu, rfl, happP, ?_, .inr ⟨_, rfl⟩, hfin, huse⟩)⟩⟩
       unfold NView.turn NView.sendX
       rfl
   · -- GAP request
@@ -978,7 +984,7 @@ theorem stepNX_emit {cfg : Cfg} {M : List Nat} {adr : Nat → Nat} {n : Net} {v 
         simp only
         rw [seen_set_self _ _ _ hxs]
         exact ⟨trivial, trivial, hst', hlast', Int.le_refl _, by omega, trivial, trivial⟩)
-    refine ⟨n', _, [], c, hn', hinv', rfl, .inr ⟨_, htx, hturn.symm, hsync, rfl, .inl ⟨g, rfl, hgM, ?_, rfl⟩⟩⟩
+    refine ⟨n', _, [], c, hn', hinv', rfl, .inr ⟨_, htx, hturn.symm, hsync, rfl, ⟨rfl, rfl⟩, .inl ⟨g, rfl, hgM, ?_, rfl, huse⟩⟩⟩
     unfold NView.turn NView.sendX
     rfl
   · exact stepNX_token h hok hP100 now e c hp htx hring hst' hlast o4 (o5.trans h.okx.son)
@@ -1009,7 +1015,7 @@ theorem stepNX_hold_go {cfg : Cfg} {M : List Nat} {adr : Nat → Nat} {n : Net} 
     have haj := h.ring.lt j hj
     exact hjx (h.ring.inj j v.x hj h.xlt (tokenBytes_adr_inj _ _ _ _ (by omega) (by omega) hb).symm)
   have hturn : v.turn M adr = adr v.x := by unfold NView.turn; rw [hph]
-  exact stepNX_emit h hok hP100 now e c (by rw [hphy]; exact hp) hinvc hout (by omega) hends hnotok hturn (.inl (by omega))
+  exact stepNX_emit h hok hP100 now e c (by rw [hphy]; exact hp) hinvc hout (by rw [hph]; trivial) (by omega) hends hnotok hturn (.inl (by omega))
 
 /-- Phase `holdT`, the first poll after the synchronisation pause following the own application telegram. -/
 theorem stepNX_holdT_go {cfg : Cfg} {M : List Nat} {adr : Nat → Nat} {n : Net} {v : NView} (h : NInv cfg M adr n v)
@@ -1036,7 +1042,7 @@ theorem stepNX_holdT_go {cfg : Cfg} {M : List Nat} {adr : Nat → Nat} {n : Net}
     rw [hb] at hbt
     exact frameSpec_ne_token _ _ _ _ hbt
   have hturn : v.turn M adr = adr v.x := by unfold NView.turn; rw [hph]
-  exact stepNX_emit h hok hP100 now e c (by rw [hphy]; exact hp) hinvc hout (by omega) hends hnotok hturn
+  exact stepNX_emit h hok hP100 now e c (by rw [hphy]; exact hp) hinvc hout (by rw [hph]; trivial) (by omega) hends hnotok hturn
     (.inr ⟨hph, by omega⟩)
 
 /-- Phase `await`, the first poll after the slot time has expired: the application gets its time-out and the
@@ -1066,7 +1072,7 @@ theorem stepNX_await_timeout {cfg : Cfg} {M : List Nat} {adr : Nat → Nat} {n :
     rw [hb] at hbt
     exact frameSpec_ne_token _ _ _ _ hbt
   have hturn : v.turn M adr = adr v.x := by unfold NView.turn; rw [hph]
-  exact stepNX_emit h hok hP100 now e c (by rw [hphy]; exact hp) hinvc hout (by omega) hends hnotok hturn
+  exact stepNX_emit h hok hP100 now e c (by rw [hphy]; exact hp) hinvc hout (by rw [hph]; trivial) (by omega) hends hnotok hturn
     (.inl (by omega))
 
 /-- Phase `gap`, the first poll after the slot time has expired: the token goes to the successor. -/
@@ -1230,7 +1236,7 @@ theorem ringA_run {cfg : Cfg} (hok : cfg.Ok) (hP100 : cfg.P ≤ 100000) (M : Lis
     rw [hn', ← htl'] at hrest
     have ih' := ih n' v' hinv' hrest
     refine ⟨n', inc, c, hp, ?_⟩
-    rcases hcase with ⟨htx, htr, hnx, -⟩ | ⟨b, htx, hit, hsync, htr, hkind⟩
+    rcases hcase with ⟨htx, htr, hnx, -⟩ | ⟨b, htx, hit, hsync, htr, -, hkind⟩
     · left
       rw [hnx, htr] at ih'
       exact ⟨htx, ih'⟩
@@ -1349,10 +1355,10 @@ theorem ringN_run {cfg : Cfg} (hok : cfg.Ok) (hP100 : cfg.P ≤ 100000) (M : Lis
     have hna' : NoApps n' := by rw [← hn']; exact hna.poll i now
     rw [hn', ← htl'] at hrest
     refine ⟨n', inc, c, hp, ?_⟩
-    rcases hcase with ⟨htx, htr, hnx, hph⟩ | ⟨b, htx, hit, hsync, htr, hkind⟩
+    rcases hcase with ⟨htx, htr, hnx, hph⟩ | ⟨b, htx, hit, hsync, htr, -, hkind⟩
     · left
       have hpl' : v'.ph.plain := by
-        rcases hph with hph | ⟨p, hph⟩
+        rcases hph with ⟨hph, -, -⟩ | ⟨-, hph, -, -⟩
         · rw [hph]; exact hpl
         · rw [hph]; trivial
       have ih' := ih n' v' hinv' hna' hpl' hrest
@@ -1365,7 +1371,7 @@ theorem ringN_run {cfg : Cfg} (hok : cfg.Ok) (hP100 : cfg.P ≤ 100000) (M : Lis
         · exact h1
         · rw [hph] at hpl; exact absurd hpl (by simp [PhaseN.plain])
       refine ⟨b, htx, hit, hs1, ?_⟩
-      rcases hkind with ⟨g, hb, hg, hnx, hph⟩ | ⟨hb, hnx, hph⟩ | ⟨hd, pdu, hb, hA, hnx, -, hfin⟩
+      rcases hkind with ⟨g, hb, hg, hnx, hph, -⟩ | ⟨hb, hnx, hph⟩ | ⟨hd, pdu, hb, hA, hnx, -, hfin, -⟩
       · left
         have ih' := ih n' v' hinv' hna' (by rw [hph]; trivial) hrest
         rw [hnx, hend] at ih'
